@@ -134,7 +134,10 @@ class Process(metaclass=abc.ABCMeta):
 
         self._parameters = copy.deepcopy(self.defaults)
         self._parameters = deep_merge(self._parameters, parameters)
-        self._schema_override: Schema = self._parameters.get('_schema', {})
+        # (a copy: merge_overrides changes it in place, and the caller may
+        # configure several processes from one dictionary)
+        self._schema_override: Schema = copy.deepcopy(
+            self._parameters.get('_schema', {}))
         self._parallel = self._parameters.get('_parallel', False)
         self._condition_path: Optional[HierarchyPath] = None
         self._command_result: Any = None
